@@ -283,3 +283,50 @@ Proof.
     intros x. rewrite M. cbn [elements empty_bf bf_data ids_from In]. intuition. }
   split; [now rewrite enum_elements|]. unfold len. now rewrite I, El.
 Qed.
+
+(* ------------------------------------------------------------------ *)
+(* IDSet methods on ANY signer list (wire-restored, unsorted, with repetitions) and the two
+   constructors *)
+Theorem multi_any_list : forall (l : multi),
+  (forall x, m_contains x l = true <-> In x l) /\
+  m_len l = length l /\ m_enum l = l /\
+  (forall k, m_range_count k l = firstn (Nat.max 1 k) l) /\
+  (forall St (f : St -> N -> St * bool) s, m_range_while f l s = fst (fold_until f l s)).
+Proof.
+  intros l. split; [intros; apply m_contains_In|]. split; [reflexivity|]. split; [reflexivity|]. split.
+  - intros k. unfold m_range_count. rewrite m_range_while_spec, fold_until_count.
+    cbn [length]. rewrite Nat.sub_0_r, app_nil_r. apply rev_involutive.
+  - intros. apply m_range_while_spec.
+Qed.
+
+Lemma m_insert_perm x l : Permutation (m_insert x l) (x :: l).
+Proof.
+  induction l as [|y r IH]; cbn [m_insert]; [reflexivity|].
+  destruct (x <=? y); [reflexivity|]. rewrite IH. apply perm_swap.
+Qed.
+
+Lemma m_insert_sorted x l : StronglySorted N.le l -> StronglySorted N.le (m_insert x l).
+Proof.
+  induction 1 as [|y r Hs IH Hf]; cbn [m_insert]; [repeat constructor|].
+  destruct (N.leb_spec x y) as [L|L].
+  - constructor; [constructor; assumption|]. constructor; [assumption|].
+    eapply Forall_impl; [|exact Hf]. intros b Hb. cbv beta in *. lia.
+  - constructor; [assumption|].
+    apply Forall_forall. intros b Hb. apply (Permutation_in _ (m_insert_perm x r)) in Hb.
+    destruct Hb as [<-|Hb]; [lia|]. rewrite Forall_forall in Hf. now apply Hf.
+Qed.
+
+(* NewMultiSorted: an ascending rearrangement of exactly the given signatures *)
+Theorem new_sorted_spec : forall l,
+  Permutation (m_new_sorted l) l /\ StronglySorted N.le (m_new_sorted l) /\
+  m_len (m_new_sorted l) = length l /\ (forall x, m_contains x (m_new_sorted l) = true <-> In x l).
+Proof.
+  intros l. assert (P : Permutation (m_new_sorted l) l).
+  { induction l as [|x l IH]; cbn [m_new_sorted fold_right]; [reflexivity|].
+    fold (m_new_sorted l). rewrite m_insert_perm. now constructor. }
+  split; [assumption|]. split; [|split].
+  - clear P. induction l as [|x l IH]; cbn [m_new_sorted fold_right]; [constructor|].
+    apply m_insert_sorted. exact IH.
+  - unfold m_len. now apply Permutation_length.
+  - intros x. rewrite m_contains_In. split; apply Permutation_in; [assumption | now symmetry].
+Qed.
